@@ -14,9 +14,9 @@ CHECKS["C04"] = _opseq("C04", "BFS over histories incl. pending refinement, merg
                        "every pair of user-chosen samples of the depth-3 grid delivered as one batch to a depth-1 grid under construction (2346 pairs per configuration); sparse vs dense matrices and the GetNZ count for batches of 32, 64 and 33 points; "
                        "weight buffers handed in by the caller are overwritten completely; swap experiment (affine values, k zero-coefficient leaves removed, k new nodes delivered one at a time: anything cached per grid and validated by a count is stale)", qdepth=3, tdepth=4)
 CHECKS["C07"] = _opseq("C07", "BFS over interleavings of refinement (all strategies, tolerances, outputs, scale corrections through both overloads), update, load/reload, merge, clear; "
-                       "invariants (duplicate-free, disjoint, value attachment by coordinate) in every state, step relations on every transition, reference selection of the classic criterion for local polynomial and wavelet grids (coordinate-based reference hierarchies) incl. level limits and tolerance 0", qdepth=4, tdepth=5)
+                       "invariants (duplicate-free, disjoint, value attachment by coordinate) in every state, step relations on every transition, reference selection of the classic criterion for local polynomial and wavelet grids (coordinate-based reference hierarchies) incl. level limits and tolerance 0; depth-1 grids in 2-D driven by rounds that refine exactly one loaded point (every choice of the point in every round)", qdepth=4, tdepth=5)
 CHECKS["C08"] = _opseq("C08", "BFS over histories that introduce, keep, replace and clear level limits through make, update, every refinement entry point and candidate requests; "
-                       "every loaded/needed/candidate point is checked against the 1-D level limit; -1 entries are compared with a large limit; every call runs under a watchdog; grids that fill the whole box of their limits; a refinement call is bound by the loaded and delivered points only (it replaces a pending refinement)",
+                       "every loaded/needed/candidate point is checked against the 1-D level limit; -1 entries are compared with a large limit; every call runs under a watchdog; grids that fill the whole box of their limits; a refinement call is bound by the loaded and delivered points only (it replaces a pending refinement); candidates of the tensor-based constructions are bounded by max(limit, highest completely loaded level) even under tightened limits (partly delivered tensors: macro transition begin + partial delivery)",
                        extra_assume=["a limit vector is only trusted when it dominates the levels already present (DESIGN C08 scope decision)"])
 CHECKS["C06"] = _opseq("C06", "BFS over histories (incl. empty-values grids, zero outputs, pending refinement, active construction with parked samples, merge, setcoef, update without growth); "
                        "in every state: write/read through stream and file, binary and ASCII, observation and bytes compared; bisimulation: every alphabet op applied to the original and to the restored grid; the observation includes the basis functions at probes; lattice incl. zero-output grids of every table layout, custom-tabulated rule objects with ordinary / empty / blank-led descriptions, unbounded rules with b <= a, 3-D grids",
